@@ -145,10 +145,12 @@ def conditions(tier):
             conds.append(Cond('total_%s_eq%d_%s' % (o, n, tag), 's: str', ['len(s) == %d' % n, pre],
                               'body_total(s, %r)' % o, timeout=T * (1 if n == 2 else 4), cost=4, twin=False))
     # skeletons with free holes (default option set + the strict one)
-    skels = [('frac', BS + 'frac??'), ('item', BS + 'item[?]?'), ('href', BS + 'href{?}?'), ('verb', BS + 'verb??'),
+    # (holes are not placed directly after a control word: a letter there extends the macro name, and looking a symbolic
+    # name up in the ~1100-entry default database costs hundreds of paths)
+    skels = [('frac', BS + 'frac{?}?'), ('item', BS + 'item[?]?'), ('href', BS + 'href{?}?'), ('verb', BS + 'verb|?'),
              ('env', BS + 'begin{itemize}?' + BS + 'end{itemize}'), ('mat', BS + 'begin{pmatrix}?&?' + BS + 'end{pmatrix}'),
-             ('math', '$?$$?'), ('acc', BS + "'?"), ('nl', 'a' + BS + BS + '?[?'), ('cmt', 'a%?\n?'), ('input', BS + 'input{?}'),
-             ('sqrt', BS + 'sqrt[?]?'), ('title', BS + 'title?' + BS + 'maketitle')]
+             ('math', '$?$$?'), ('acc', BS + "'{?}"), ('nl', 'a' + BS + BS + '?[?'), ('cmt', 'a%?\n?'), ('input', BS + 'input{?}'),
+             ('sqrt', BS + 'sqrt[?]{?'), ('title', BS + 'title{?' + BS + 'maketitle')]
     for nm, sk in skels:
         if quick:
             sk = sk.replace('?', '\x00', 1).replace('?', 'x').replace('\x00', '?') if sk.count('?') > 1 else sk
